@@ -41,6 +41,7 @@ type fgCall struct {
 type bgStep struct {
 	gate chan struct{} // refresh blocks here until closed
 	fail bool          // refresh returns an error and no response
+	none bool          // refresh returns neither an error nor a response
 	spec msgSpec       // otherwise it answers with this
 }
 
@@ -55,6 +56,11 @@ type bgState struct {
 	done    int
 	hadResp int // refreshes that were entered with a response already set (unexpected)
 	arrive  chan struct{}
+	// dyn != nil: every refresh blocks at the upstream until the harness hands it
+	// its script step through this channel (the transition workload decides what a
+	// refresh answers only when it releases it)
+	dyn      chan bgStep
+	watchdog int // refreshes that the harness never released (20 s)
 }
 
 func (b *bgState) snapshot() (started, maxIn, done int) {
@@ -111,23 +117,39 @@ func (e *env) terminal(ctx context.Context, qCtx *query_context.Context) error {
 	if qCtx.R() != nil {
 		st.hadResp++
 	}
-	step := st.steps[len(st.steps)-1]
-	if n < len(st.steps) {
-		step = st.steps[n]
+	var step bgStep
+	if st.dyn == nil {
+		step = st.steps[len(st.steps)-1]
+		if n < len(st.steps) {
+			step = st.steps[n]
+		}
 	}
 	st.mu.Unlock()
 	select {
 	case st.arrive <- struct{}{}:
 	default:
 	}
-	select {
-	case <-step.gate:
-	case <-time.After(20 * time.Second): // harness watchdog; never expected
+	if st.dyn != nil {
+		select {
+		case step = <-st.dyn:
+		case <-time.After(20 * time.Second): // harness watchdog; never expected
+			step = bgStep{none: true}
+			st.mu.Lock()
+			st.watchdog++
+			st.mu.Unlock()
+		}
+	} else {
+		select {
+		case <-step.gate:
+		case <-time.After(20 * time.Second): // harness watchdog; never expected
+		}
 	}
 	var err error
-	if step.fail {
+	switch {
+	case step.fail:
 		err = errors.New("scripted refresh failure")
-	} else {
+	case step.none:
+	default:
 		qCtx.SetResponse(build(step.spec, st.q.Name, st.q.Qtype))
 	}
 	st.mu.Lock()
